@@ -34,19 +34,19 @@ CHECKS = {
  },
  "C08": {
   "technique": "static: sat.model_count / approx_model_count / props.signal_probability evaluated by the checker's AST evaluator with a scripted solver and fake file/process objects; model_count end to end against a DPLL solver model vs the definition (incl. unloaded startpoints, cyclic circuits); syntactic blocking-clause rule; DIMACS text parsed and enumerated",
-  "text": "Blocking clauses are the negated model literals on exactly the startpoints (inputs and blackbox outputs) and the count is the number of models produced; signal_probability counts the reflexive fan-in cone under {n: True} and normalises by that sub-circuit's own startpoints; the default-mode DIMACS text declares the startpoints as sampling set, has a consistent header, equals cnf(c) plus assumption units and has the expected projected model count on model circuits (exhaustive enumeration).",
+  "text": "Blocking clauses are the negated model literals on exactly the startpoints (inputs and blackbox outputs) and the count is the number of models produced; signal_probability counts the reflexive fan-in cone under {n: True} and normalises by that sub-circuit's own startpoints; the default-mode DIMACS text declares the startpoints as sampling set, has a consistent header, equals cnf(c) plus assumption units and has the expected projected model count on model circuits (exhaustive enumeration) - all of it read off the file as flushed when the external counter is started; signal_probability also on feedback cones whose startpoint valuations have one or no consistent extension.",
   "design_ref": "DESIGN.md section 3 C08",
   "note": "Trusted: cgstatic's evaluator; PySAT/approxmc interface conventions; exactness on a real solver follows from C01 plus the blocking-clause rule and is argued, not mechanised; use_xor_clauses mode not covered.",
  },
  "C02": {
   "technique": "static: verilog.lark loaded as data (lark LALR tables) + transformer callbacks evaluated from source by the checker's own AST evaluator (cgstatic.minieval) over reference model objects (cgstatic.refmodel); the package is never imported or run by CPython, no solver; reference Verilog-2001 expression parser/evaluator as oracle; rule/callback agreement",
-  "text": "For systematic families of continuous assignments (all operator pairs/triples without parentheses, unary forms, parenthesised and nested conditionals, constants), primitive instances of every type (several per statement), named-port blackbox instances (connected / unconnected pins) and port-list mismatches, the circuit built by the grammar + callbacks is compared by exhaustive simulation with what the netlist denotes; declared ports are exactly the io; mismatching port lists are rejected; names colliding with the parser's synthetic names are probed (three known findings).",
+  "text": "For systematic families of continuous assignments (all operator pairs/triples without parentheses, unary forms, parenthesised and nested conditionals, constants), primitive instances of every type (several per statement), named-port blackbox instances (connected / unconnected pins) and port-list mismatches, the circuit built by the grammar + callbacks is compared by exhaustive simulation with what the netlist denotes; declared ports are exactly the io; mismatching port lists are rejected; names colliding with the parser's synthetic names are probed (three known findings); the diagnostics flags (warnings / error_on_warning) only report; the order family and use-before-definition netlists are parsed a second time with circuit.py's own Circuit class under the transformer.",
   "design_ref": 'DESIGN.md section 3 C02',
   "note": "Trusted: lark's LALR engine and Transformer protocol (reproduced by a 20-line driver); the checker's reference expression semantics; netlists outside the enumerated families are not decided.",
  },
  "C03": {
   "technique": "static: io.circuit_to_verilog / verilog_to_circuit / to_file / from_file evaluated from source by the checker's own AST evaluator (cgstatic.minieval) over reference model objects (cgstatic.refmodel); the package is never imported or run by CPython, no solver; text parsed with the grammar-as-data driver; in-memory file model",
-  "text": 'For model circuits covering every gate type at fan-in 1..3, multi-level circuits, constants incl. x, outputs that are inputs or constants, blackboxes with connected/unconnected pins and escaped identifiers, in both output styles, reading back the written text preserves name, io sets, blackbox pins and the function at every output and blackbox input pin; without constants the primitive form round-trips to an identical graph; same through to_file/from_file; unknown formats raise.',
+  "text": 'For model circuits covering every gate type at fan-in 1..3, multi-level circuits, constants incl. x, outputs that are inputs or constants, blackboxes with connected/unconnected pins and escaped identifiers, in both output styles, reading back the written text preserves name, io sets, blackbox pins and the function at every output and blackbox input pin; without constants the primitive form round-trips to an identical graph; same through to_file/from_file (also file names that are not words); unknown formats raise; escaped instance and module names, port-less circuits; blackbox models again with the own Circuit class of circuit.py under writer and reader.',
   "design_ref": 'DESIGN.md section 3 C03',
   "note": 'Trusted: the C02 driver; the in-memory file model; circuits outside the families are not decided.',
  },
@@ -70,7 +70,7 @@ CHECKS = {
  },
  "C09": {
   "technique": "static: tx.unroll / tx.sequential_unroll evaluated from source by the checker's own AST evaluator (cgstatic.minieval) over reference model objects (cgstatic.refmodel); the package is never imported or run by CPython, no solver; iterated / cycle-accurate reference simulation",
-  "text": 'On model state machines (1-2 state bits, with and without free inputs, flip-flop blackboxes) and n = 1..3: free inputs are step-0 state plus per-step inputs, io_map[o][t] equals iterated execution for every initial state and input sequence, flop outputs exposed only on request, initial values applied to step 0, clock pins removed; guards raise.',
+  "text": 'On model state machines (1-2 state bits, with and without free inputs, flip-flop blackboxes) and n = 1..3: free inputs are step-0 state plus per-step inputs, io_map[o][t] equals iterated execution for every initial state and input sequence, flop outputs exposed only on request, initial values applied to step 0, clock pins removed (and only pins: nets named after instances and pins stay); guards raise; one recorded name clash of unroll with its own naming.',
   "design_ref": 'DESIGN.md section 3 C09',
   "note": 'Trusted: reference Circuit model; step counts / machines outside the families.',
  },
@@ -84,7 +84,7 @@ CHECKS = {
   "technique": "static: sensitization/sensitivity transforms and props.sensitize/sensitivity/influence/avg_sensitivity evaluated from source by the checker's own AST evaluator (cgstatic.minieval) over reference model objects (cgstatic.refmodel); the package is never imported or run by CPython, no solver with a reference brute-force SAT layer",
   "text": "For every node of the model circuits: sat of the sensitization transform equals 'inverting n changes a (selected) endpoint'; sensitize returns None iff unsensitizable, else a sensitizing startpoint valuation; dif_out_s equals 'flipping s flips n' and sen_out encodes their count; sensitivity is the maximum count; exact influence is the per-startpoint fraction and avg_sensitivity their sum.",
   "design_ref": 'DESIGN.md section 3 C11',
-  "note": 'Trusted: sat.solve / sat.model_count replaced by reference brute force (the real ones are decided by C01/C08); approx and supergates modes not covered.',
+  "note": 'Trusted: sat.solve / sat.model_count replaced by reference brute force (the real ones are decided by C01/C08); approx modes not covered; supergates=True on one tree-shaped model (two known findings: the supergate path is not exact).',
  },
  "C12": {
   "technique": "static: Circuit's query methods evaluated from source by the checker's own AST evaluator (cgstatic.minieval) over reference model objects (cgstatic.refmodel); the package is never imported or run by CPython, no solver, exhaustive over all labelled digraphs on <= 3 nodes (subset/all on 4); syntactic direction-table rule; structural call-depth rule (no call to itself per step along fan-in / fan-out)",
